@@ -2049,6 +2049,8 @@ async def _issuance_session(ctx: Ctx, batch: Batch, seed: int, force: dict):  # 
                 else:
                     ctx.count("branch:issuance:partial")
         # ---- oracle 2: the same two nodes verify every attribute, format after format --------------------------------
+        from ipv8.attestation.communication_manager import CommunicationChannel
+        channel = CommunicationChannel(attester, None)
         vorder = rng.sample([r for r in reqs if "hash" in r], len([r for r in reqs if "hash" in r]))
         vorder = vorder + vorder[:1]            # and the first one again after the others
         for r in vorder:
@@ -2060,6 +2062,31 @@ async def _issuance_session(ctx: Ctx, batch: Batch, seed: int, force: dict):  # 
                                                lambda h, vals: results.append(list(vals)), fmt)
             await pump(dup=0.2)
             ctx.count(f"session:verified:{fmt}")
+            # the same verification through the business-logic API (CommunicationChannel.verify) with a LIST of
+            # reference values: repeats, the true value at any position, values with other profiles
+            attester.request_cache.clear()
+            attestee.request_cache.clear()
+            tv, ov = r["value"], (others + [b"\x01other"])[0]
+            shape = [("true-first", [tv, ov]), ("repeated-true-then-other", [tv, tv, ov]), ("other-first", [ov, tv]),
+                     ("repeated-other", [ov, ov, tv, ov]), ("true-last-of-many", [*others, ov, tv]),
+                     ("only-others", [ov, *others])][ctx.counts.get("channel:verify", 0) % 6]
+            ctx.count("channel:verify")
+            ctx.count(f"channel:references:{shape[0]}")
+            refs = list(shape[1])
+            channel.verify(Peer(nodes[1].my_peer.public_key, addr[1]), r["hash"], list(refs), fmt)
+            await pump()
+            rows = channel.verification_output.get(r["hash"])
+            want_rows = []
+            for ref in refs:
+                same = profile_of_bits(bits_of_digest(hfun(ref))) == profile_of_bits(bits_of_digest(hfun(tv)))
+                want_rows.append((ref, float(1 - Fraction(1, 2 ** (bitspace // 2))) if same else 0.0))
+            if rows is None or [tuple(x) for x in rows] != want_rows:
+                ctx.oracle_fail("CommunicationChannel.verify:report",
+                                f"references {shape[0]} ({len(refs)} values, the attested one at positions "
+                                f"{[i for i, x in enumerate(refs) if x == tv]}): the channel reports "
+                                f"{[(x[0][:8], x[1]) for x in (rows or [])]}, expected scores "
+                                f"{[w for _, w in want_rows]} in this order", dict(rp, attribute=r["name"],
+                                                                                   references=[x.hex() for x in refs]))
             npairs = bitspace // 2
             want = 1 - Fraction(1, 2 ** npairs)
             prof = profile_of_bits(bits_of_digest(hfun(r["value"])))
@@ -2082,6 +2109,78 @@ async def _issuance_session(ctx: Ctx, batch: Batch, seed: int, force: dict):  # 
         for node in nodes:
             await node.stop()
         internet.clear()
+
+
+def schema_config_round(ctx: Ctx):
+    """schemas are configuration: what a schema was registered with must be what its algorithm uses, whatever happens
+    afterwards to the dict it was registered from, to other schemas, or to the default schemas of another manager"""
+    from ipv8.attestation.schema.manager import SchemaManager
+    from ipv8.attestation.wallet.pengbaorange.algorithm import PengBaoRangeAlgorithm
+    seed = ctx.rng.getrandbits(64)
+    rng = _random.Random(seed)
+    kind = ["mutate-dict-after-registration", "reuse-dict-for-second-schema", "other-manager-edits-its-default",
+            "independent-dicts"][ctx.counts.get("config:round", 0) % 4]
+    ctx.count("config:round")
+    ctx.count(f"config:history:{kind}")
+    m1, m2 = SchemaManager(), SchemaManager()
+    m1.register_default_schemas()
+    m2.register_default_schemas()
+    a = rng.randrange(10, 60)
+    b = a + rng.randrange(20, 300)
+    a_low = a - rng.randrange(3, 9)                   # the other, wider range: values in [a_low, a) are outside [a, b]
+    rp = {"kind": "config", "history": kind, "seed": seed, "a": a, "b": b, "a_low": a_low}
+    name, registered = "r_own", {"key_size": 32, "min": a, "max": b}
+    if kind == "other-manager-edits-its-default":
+        name = "id_metadata_range_18plus"
+        registered = {k: v for k, v in m1.formats[name].items() if k != "algorithm"}
+        a, b = registered["min"], registered["max"]
+        a_low = a - rng.randrange(3, 9)
+        rp.update(a=a, b=b, a_low=a_low)
+        m2.formats[name]["min"] = a_low                # a different manager edits ITS OWN copy
+        wide = m2.get_algorithm_instance(name)
+    else:
+        params = dict(registered)
+        m1.register_schema(name, "pengbaorange", params)
+        if kind == "mutate-dict-after-registration":
+            params["min"] = a_low
+            wide = PengBaoRangeAlgorithm("w", {"w": {"algorithm": "pengbaorange", "key_size": 32, "min": a_low, "max": b}})
+        elif kind == "reuse-dict-for-second-schema":
+            params["min"] = a_low
+            m1.register_schema("r_other", "pengbaorange", params)
+            wide = m1.get_algorithm_instance("r_other")
+        else:
+            m1.register_schema("r_other", "pengbaorange", {"key_size": 32, "min": a_low, "max": b})
+            wide = m1.get_algorithm_instance("r_other")
+    alg = m1.get_algorithm_instance(name)
+    stored = {k: v for k, v in m1.formats[name].items() if k != "algorithm"}
+    if stored != registered or (alg.a, alg.b) != (a, b):
+        ctx.oracle_fail("SchemaManager.register_schema:parameters-changed",
+                        f"schema {name} was registered with {registered}; after `{kind}` the manager holds {stored} and "
+                        f"its algorithm checks the range [{alg.a},{alg.b}]", rp)
+    if (wide.a, wide.b) != (a_low, b):
+        ctx.oracle_fail("SchemaManager.register_schema:parameters-changed",
+                        f"the other schema should check [{a_low},{b}], it checks [{wide.a},{wide.b}]", rp)
+    # behaviour: a proof made under the wider range for a value below `a` must not pass under this schema
+    sk = wide.generate_secret_key()
+    pk = sk.public_key()
+    for value, inside in ((rng.randrange(a_low, a), False), (rng.randrange(a, b + 1), True)):
+        try:
+            blob = wide.attest(pk, bytes([value]) if value < 256 else value.to_bytes(2, "big"))
+        except Exception:  # noqa: BLE001 - the random split m2 < 0 (p ~ 2^-15)
+            ctx.count("config:attest-raised")
+            continue
+        att = wide.get_attestation_class().unserialize_private(sk, blob, "w")
+        pub = alg.get_attestation_class().unserialize(att.serialize(), name)
+        agg = alg.create_certainty_aggregate(pub)
+        for ch in alg.create_challenges(pk, pub):
+            agg = alg.process_challenge_response(agg, ch, wide.create_challenge_response(sk, att, ch))
+        score = alg.certainty(b"\x01", agg)
+        ctx.count(f"config:verified:{'inside' if inside else 'outside'}-own-range")
+        if not inside and score != 0.0:
+            ctx.oracle_fail("PengBaoPublicData.check:outside-accepted",
+                            f"schema {name} registered with [{a},{b}]; after `{kind}` a proof for {value} made under "
+                            f"[{a_low},{b}] is accepted by it (score {score})", dict(rp, value=value))
+    ctx.case(("config", kind, a, b, a_low, seed), True)
 
 
 FORMATS_BY_ID = {"id_metadata": "sha256_4", "id_metadata_big": "sha256", "id_metadata_huge": "sha512"}
@@ -2125,6 +2224,8 @@ def protocol_cases(ctx: Ctx, scale: float):
         community_range_round(ctx, duplicate=bool(i % 2))
     for _ in range(max(2, int(2 * scale))):
         issuance_session(ctx, batch)
+    for _ in range(max(4, int(4 * scale))):
+        schema_config_round(ctx)
     batch.flush(ctx)
 
 
@@ -2214,6 +2315,10 @@ REQUIRED_BRANCHES = [
     "range:cheater:order-shift", "range:cheater:only-x-fails", "range:cheater:only-y-fails",
     "range:boundary-challenge", "range:history:own-first:later:other", "range:aggregate:good-then-bad",
     "format:sha256_4", "format:sha256", "format:sha512",
+    "channel:references:true-first", "channel:references:repeated-true-then-other", "channel:references:other-first",
+    "config:history:mutate-dict-after-registration", "config:history:reuse-dict-for-second-schema",
+    "config:history:other-manager-edits-its-default", "config:history:independent-dicts",
+    "config:verified:outside-own-range",
 ]
 
 
@@ -2281,6 +2386,11 @@ def replay(ctx: Ctx, rec: dict):
                                 "formats": r.get("formats"), "keys": r.get("keys"), "values": r.get("values")})
         print(f"replay: the recorded session (seed, answer order, chunk schedule, formats, keys and values as recorded): "
               f"{'property FAILS' if ctx.failures else 'property holds'}")
+        return
+    if kind == "config":
+        for _ in range(4):
+            schema_config_round(ctx)
+        print(f"replay: the four schema-configuration histories: {'property FAILS' if ctx.failures else 'property holds'}")
         return
     if kind == "bad-answer":
         bad_answer_cases(ctx, 1, forced=r.get("r"))
